@@ -156,11 +156,12 @@ def embed_full(n, qs, M):
 # ----------------------------------------------------------------------------- items
 class Item:
     """one observed output of the implementation"""
-    __slots__ = ("key", "fn", "label", "model", "value", "spec", "meta", "exact", "file")
+    __slots__ = ("key", "fn", "label", "model", "value", "spec", "meta", "exact", "file", "alt")
 
-    def __init__(self, key, fn, label, model, value, spec=None, meta=None, exact=True):
+    def __init__(self, key, fn, label, model, value, spec=None, meta=None, exact=True, alt=None):
         self.key, self.fn, self.label, self.model, self.value = key, fn, label, model, value
         self.spec, self.meta, self.exact = spec, meta or {}, exact
+        self.alt = alt      # model of the REPAIRED function, where the faithful model reproduces a known defect
 
 
 class CaseCtx:
@@ -190,7 +191,7 @@ class CaseCtx:
                 f"Definition EU : mat Zi := z_kraus_action d [Um] rho.\n"
                 f"Definition nv2 : Z := {nv * nv}.\n")
 
-    def add(self, fn, label, model, thunk, spec=None, scale=1.0, meta=None, sub=""):
+    def add(self, fn, label, model, thunk, spec=None, scale=1.0, meta=None, sub="", alt=None):
         key = f"{fn}:{label}" if label else fn
         try:
             with warnings.catch_warnings():
@@ -200,7 +201,7 @@ class CaseCtx:
         except Exception as e:  # noqa: BLE001
             self.crashes.append((key, f"{type(e).__name__}: {e}"))
             return None
-        self.items.append(Item(key, fn, label, model, val, spec, meta, exact))
+        self.items.append(Item(key, fn, label, model, val, spec, meta, exact, alt))
         return np.asarray(out)
 
 
@@ -323,10 +324,10 @@ def run_pauli(ctx, orders, pos, norm_checks):
             pn = po_nat(po)
             lab = f"order={order},pauli_order={po}"
             nn = f"{n}%nat"
-            table = []   # (fn, model, impl(normalize) , spec, steps)
+            table = []   # (fn, model, impl(normalize) , spec, steps, alt)
 
-            def T(fn, model, impl, spec, steps):
-                table.append((fn, model, impl, spec, steps))
+            def T(fn, model, impl, spec, steps, alt=None):
+                table.append((fn, model, impl, spec, steps, alt))
             kw = dict(order=order, pauli_order=po)
             # the basis itself
             T("pauli_basis_vectorized", f"(z_pauli_basis_vec {pn} {o} {nn})",
@@ -359,7 +360,8 @@ def run_pauli(ctx, orders, pos, norm_checks):
                 pl = qi.kraus_to_pauli(K, False, **kw)
                 ctxpl = f"(z_kraus_to_pauli {pn} {col} {nn} Ks)"
                 T("to_pauli_liouville", f"(z_to_pauli_liouville {pn} {col} {nn} Um)",
-                  lambda nz: qi.to_pauli_liouville(U.copy(), nz, **kw), spec_term("pauli", "OUT", order, n, po, E="EU"), 1)
+                  lambda nz: qi.to_pauli_liouville(U.copy(), nz, **kw), spec_term("pauli", "OUT", order, n, po, E="EU"), 1,
+                  alt=f"(z_to_pauli_liouville_fixed {pn} {col} {nn} Um)")
                 T("kraus_to_pauli", ctxpl, lambda nz: qi.kraus_to_pauli(K, nz, **kw),
                   spec_term("pauli", "OUT", order, n, po), 1)
                 T("choi_to_pauli", f"(z_choi_to_pauli {pn} {col} {nn} (z_kraus_to_choi {o} Ks))",
@@ -385,8 +387,8 @@ def run_pauli(ctx, orders, pos, norm_checks):
                     T("Channel.to_pauli_liouville", ctxpl,
                       lambda nz: gates.KrausChannel([q for q, _ in K], [M for _, M in K]).to_pauli_liouville(
                           nqubits=n, normalize=nz, pauli_order=po), spec_term("pauli", "OUT", order, n, po), 1)
-            for fn, model, impl, spec, steps in table:
-                un = ctx.add(fn, lab, model, lambda: impl(False), spec=spec, meta={"pauli_order": po, "order": order})
+            for fn, model, impl, spec, steps, alt in table:
+                un = ctx.add(fn, lab, model, lambda: impl(False), spec=spec, meta={"pauli_order": po, "order": order}, alt=alt)
                 if un is None or not norm_checks:
                     continue
                 key = f"{fn}:{lab},normalize=True"
@@ -425,11 +427,11 @@ def run_networks(ctx):
             spec="zmeqb OUT EU")
     ctx.add("QuantumChannel.apply", "nonpure,inverse=True", f"(z_qn_apply {dd} (z_qn_from_operator_inv {dd} {C}) rho)",
             lambda: QuantumChannel.from_operator(choi.copy(), (d, d), inverse=True).apply(rho.copy()),
-            spec="zmeqb OUT EK")
+            spec="zmeqb OUT EK", alt=f"(z_network_action {dd} (z_qn_from_operator_inv {dd} {C}) rho)")
     ctx.add("QuantumChannel.apply", "nonpure,inverse=True,unitary",
             f"(z_qn_apply {dd} (z_qn_from_operator_inv {dd} (z_to_choi (Row d) Um)) rho)",
             lambda: QuantumChannel.from_operator(choiU.copy(), (d, d), inverse=True).apply(rho.copy()),
-            spec="zmeqb OUT EU")
+            spec="zmeqb OUT EU", alt=f"(z_network_action {dd} (z_qn_from_operator_inv {dd} (z_to_choi (Row d) Um)) rho)")
     # the same channel applied through the link product with a state network
     ctx.add("link_product", "state*channel,nonpure,inverse=True",
             f"(z_qn_matrix_of_state d (z_qn_link (z_qn_state d rho) (z_qn_from_operator_inv {dd} {C})))",
@@ -550,6 +552,8 @@ def coq_check(run, ctxs, jobs=8):
                 eq = f"zmeqb {it.model} {nm}"
             else:
                 eq = f"zveqb {it.model} {nm}"
+            if it.alt and ty == "mat Zi":
+                eq = f"({eq} || zmeqb {it.alt} {nm})"
             terms.append((f"{idx}:eq", eq))
             if it.spec:
                 terms.append((f"{idx}:spec", "(" + it.spec.replace("OUT", nm) + ")"))
